@@ -53,3 +53,53 @@ Proof. split; reflexivity. Qed.
 Example C04_escape_collision_with_backslash :
   bs_esc_top (target_special (fun _ => false)) (STR "~x") = bs_esc_top (target_special (fun _ => false)) (c_bs :: STR "~x").
 Proof. reflexivity. Qed.
+
+(* ---- whole rule headers and directory sentinels ---- *)
+From BFG Require Import Make.MakeHeader Make.MakeHeaderProofs.
+
+(* the header  targets: prerequisites | order-only  written by _write_rule for representable names (target_ok /
+   dep_ok; here additionally without a dollar sign, whose doubling is undone by the expansion that precedes the
+   parse: C04_dollar_injective, C01_make_dollar_roundtrip) is split by GNU Make - first unescaped colon, unescaped
+   bar, blank-separated words with backslash escapes - into exactly the three declared lists *)
+Theorem C04_make_rule_rt : forall us ts ds os,
+  ts <> [] -> forallb (tname_ok us) ts = true -> forallb (dname_ok us) ds = true -> forallb (oname_ok us) os = true ->
+  parse_rule_header (header_text us ts ds os) = Some (ts, ds, os).
+Proof. exact rule_header_rt. Qed.
+Print Assumptions C04_make_rule_rt.
+
+Example C04_make_rule_rt_nonvacuous :
+  let nu := fun _ : char => false in
+  let ts := [STR "my prog"; STR "a:b#c"; STR "100%"] in let ds := [STR "d r/ma in.c"; STR "x|y"; STR "p:q"] in let os := [STR "prog.int/d r/.dir"] in
+  forallb (tname_ok nu) ts = true /\ forallb (dname_ok nu) ds = true /\ forallb (oname_ok nu) os = true /\
+  parse_rule_header (header_text nu ts ds os) = Some (ts, ds, os) /\
+  parse_rule_header (header_text nu ts [] os) = Some (ts, [], os) /\ parse_rule_header (header_text nu ts ds []) = Some (ts, ds, []).
+Proof. repeat split; vm_compute; reflexivity. Qed.
+
+(* a bar in an ORDER-ONLY prerequisite (the sentinel of an output directory whose name contains one): the writer
+   escapes it as on the prerequisite side, but after the separating bar GNU Make keeps that backslash *)
+Theorem C04_make_rule_oo_bar_refuted : exists ts ds os,
+  forallb (tname_ok (fun _ => false)) ts = true /\ forallb (dname_ok (fun _ => false)) ds = true /\
+  forallb (dname_ok (fun _ => false)) os = true /\
+  parse_rule_header (header_text (fun _ => false) ts ds os) <> Some (ts, ds, os).
+Proof. exists [STR "out"], [STR "in"], [STR "a|b/.dir"]. repeat split; try reflexivity. vm_compute. discriminate. Qed.
+Print Assumptions C04_make_rule_oo_bar_refuted.
+
+(* the sentinel  dir/.dir  of a representable directory is a representable target (so C04_make_target_rt and
+   C04_make_rule_rt apply to it), and  patsubst %/.dir,%  gives the directory back when it contains no blank *)
+Theorem C04_dirs : forall us d,
+  (target_ok us d = true -> target_ok us (sentinel_of d) = true) /\
+  (d <> [] -> blank_free d = true -> patsubst_dir_text (sentinel_of d) = d).
+Proof. intros us d. split; [apply sentinel_target_ok|apply patsubst_sentinel]. Qed.
+Print Assumptions C04_dirs.
+
+(* patsubst works on blank-separated words and joins by ONE blank: single blanks inside a directory name survive
+   (computed), two consecutive blanks do not - mkdir -p then creates another directory than the one the sentinel is
+   touched in *)
+Example C04_dirs_single_blank :
+  patsubst_dir_text (sentinel_of (STR "prog.int/d r/e f")) = STR "prog.int/d r/e f".
+Proof. vm_compute. reflexivity. Qed.
+
+Theorem C04_dirs_consecutive_blanks_refuted : exists d,
+  target_ok (fun _ => false) d = true /\ patsubst_dir_text (sentinel_of d) <> d.
+Proof. exists (STR "a  b"). split; [reflexivity|]. vm_compute. discriminate. Qed.
+Print Assumptions C04_dirs_consecutive_blanks_refuted.
